@@ -211,8 +211,8 @@ dec!(c17_o4_q_ty15_n9_len2, dec_body_len, 9, 15, 5, 2u32);
 dec!(c17_o4_t_ty15_n11_len2, dec_body_len, 11, 15, 5, 2u32);
 dec!(c17_o4_t_ty15_n12_len2, dec_body_len, 12, 15, 5, 2u32);
 dec!(c17_o4_q_ty15_n9_len3, dec_body_len, 9, 15, 5, 3u32);
-dec!(c17_o4_t_ty15_n12_len3, dec_body_len, 12, 15, 5, 3u32);
-dec!(c17_o4_t_ty15_n13_len3, dec_body_len, 13, 15, 5, 3u32);
+dec!(c17_o4_a_ty15_n12_len3, dec_body_len, 12, 15, 5, 3u32);
+dec!(c17_o4_a_ty15_n13_len3, dec_body_len, 13, 15, 5, 3u32);
 dec!(c17_o4_t_ty15_n9_len2147483648, dec_body_len, 9, 15, 5, 2147483648u32);
 dec!(c17_o4_t_ty15_n10_len2147483648, dec_body_len, 10, 15, 5, 2147483648u32);
 dec!(c17_o4_t_ty15_n12_len2147483648, dec_body_len, 12, 15, 5, 2147483648u32);
@@ -232,7 +232,7 @@ dec!(c17_o4_q_ty13_n9_len2, dec_body_len, 9, 13, 5, 2u32);
 dec!(c17_o4_t_ty13_n11_len2, dec_body_len, 11, 13, 5, 2u32);
 dec!(c17_o4_t_ty13_n12_len2, dec_body_len, 12, 13, 5, 2u32);
 dec!(c17_o4_q_ty13_n9_len3, dec_body_len, 9, 13, 5, 3u32);
-dec!(c17_o4_t_ty13_n12_len3, dec_body_len, 12, 13, 5, 3u32);
+dec!(c17_o4_a_ty13_n12_len3, dec_body_len, 12, 13, 5, 3u32);
 dec!(c17_o4_t_ty13_n13_len3, dec_body_len, 13, 13, 5, 3u32);
 dec!(c17_o4_t_ty13_n9_len2147483648, dec_body_len, 9, 13, 5, 2147483648u32);
 dec!(c17_o4_t_ty13_n10_len2147483648, dec_body_len, 10, 13, 5, 2147483648u32);
@@ -250,10 +250,10 @@ dec!(c17_o4_t_ty14_n18_len1, dec_body_len, 18, 14, 13, 1u32);
 dec!(c17_o4_t_ty14_n19_len1, dec_body_len, 19, 14, 13, 1u32);
 dec!(c17_o4_t_ty14_n20_len1, dec_body_len, 20, 14, 13, 1u32);
 dec!(c17_o4_q_ty14_n17_len2, dec_body_len, 17, 14, 13, 2u32);
-dec!(c17_o4_t_ty14_n19_len2, dec_body_len, 19, 14, 13, 2u32);
+dec!(c17_o4_a_ty14_n19_len2, dec_body_len, 19, 14, 13, 2u32);
 dec!(c17_o4_t_ty14_n20_len2, dec_body_len, 20, 14, 13, 2u32);
 dec!(c17_o4_q_ty14_n17_len3, dec_body_len, 17, 14, 13, 3u32);
-dec!(c17_o4_t_ty14_n20_len3, dec_body_len, 20, 14, 13, 3u32);
+dec!(c17_o4_a_ty14_n20_len3, dec_body_len, 20, 14, 13, 3u32);
 dec!(c17_o4_t_ty14_n21_len3, dec_body_len, 21, 14, 13, 3u32);
 dec!(c17_o4_t_ty14_n17_len2147483648, dec_body_len, 17, 14, 13, 2147483648u32);
 dec!(c17_o4_t_ty14_n18_len2147483648, dec_body_len, 18, 14, 13, 2147483648u32);
